@@ -155,11 +155,16 @@ def main():
     for n in range(N // 3):
         if rac.out_of_time(0.97):
             break
-        prob = G.rnd_problem(rac.rng, nt=rac.rng.randint(2, 4))
+        logt = rac.rng.random() < 0.3
+        prob = G.rnd_problem(rac.rng, nt=rac.rng.randint(2, 4), fam="exp" if logt else None)
         j = rac.rng.randrange(len(prob["val"]))
         prob["tact"] = [i != j for i in range(len(prob["val"]))]
+        if logt:
+            # the disabled target is an optimize_log target (its error is the log of a ratio): positive target values
+            prob["val"] = [abs(v) + 0.1 for v in prob["val"]]
+            prob["olog"] = [i == j or rac.rng.random() < 0.3 for i in range(len(prob["val"]))]
         prob2 = copy.deepcopy(prob)
-        prob2["val"][j] += rac.rng.choice([1.0, -3.5, 100.0])
+        prob2["val"][j] = prob2["val"][j] + rac.rng.choice([1.0, -3.5, 100.0]) if not logt else prob2["val"][j] * rac.rng.choice([3.0, 0.2, 50.0])
         calls = rac.rng.choice([["opt.step(3)"], ["opt.solve()"], ["opt.step(2, take_best=False)"]])
         try:
             o1, d1, e1 = drive(prob, calls)
@@ -173,6 +178,49 @@ def main():
             rac.fail(f"disabled-target {n}", f"C10 disabled target {j}: changing its value changes the trajectory: {t1[:4]} vs {t2[:4]} ({e1}/{e2})",
                      PRELUDE + G.SRC + CHECK_SRC + f"p1 = {prob!r}\np2 = {prob2!r}\no1, d1, e1 = drive(p1, {calls!r}); o2, d2, e2 = drive(p2, {calls!r})\n"
                      "assert [list(map(float, r)) for r in o1._log['knobs']] == [list(map(float, r)) for r in o2._log['knobs']]\n", "MeritFunctionForMatch.__call__")
+    rac.section("limits-changed-between-calls", "after a first step() the limits of a knob are TIGHTENED around its current value (the user narrows the "
+                "allowed range), then more steps: every row logged after the change, and the container, lie within the NEW limits "
+                "(unit weights: exactly)", "problems with limits", exhaustive=False)
+    for n in range(N // 4):
+        if rac.out_of_time(0.9):
+            break
+        prob = G.rnd_problem(rac.rng, limits=True, weights=False, max_step=rac.rng.random() < 0.4)
+        if not any(prob["lim"]):
+            continue
+        try:
+            opt, d, err = drive(prob, ["opt.step(1)"])
+        except Exception:     # noqa
+            continue
+        if err is not None:
+            continue
+        cur = knobs_of(d, prob)
+        i = rac.rng.choice([k for k, l in enumerate(prob["lim"]) if l is not None])
+        lo, hi = prob["lim"][i]
+        new = (max(lo, cur[i] - rac.rng.choice([0.0, 0.01, 0.1])), min(hi, cur[i] + rac.rng.choice([0.0, 0.01, 0.1])))
+        if new[0] >= new[1]:
+            continue
+        n0 = len(opt._log["knobs"])
+        calls2 = rac.rng.choice([["opt.step(3, take_best=False)"], ["opt.step(2)"], ["opt.step(2, broyden=True)"]])
+        scr = PRELUDE + G.SRC + CHECK_SRC + f"prob = {prob!r}\nopt, d, err = drive(prob, ['opt.step(1)'])\nopt.vary[{i}].limits = {new!r}\nn0 = len(opt._log['knobs'])\n" \
+            f"for c in {calls2!r}:\n    try:\n        exec(c, dict(opt=opt, d=d))\n    except Exception as ex:\n        print('raised', ex); break\n" \
+            f"rows = [list(map(float, r)) for r in opt._log['knobs'][n0:]] + [knobs_of(d, prob)]\nprint(rows)\nassert all({new[0]!r} <= r[{i}] <= {new[1]!r} for r in rows), rows\n"
+        try:
+            opt.vary[i].limits = new
+            raised = None
+            for c in calls2:
+                try:
+                    exec(c, dict(opt=opt, d=d))
+                except Exception as ex:     # noqa
+                    raised = ex
+                    break
+        except Exception:     # noqa
+            continue
+        rows = [list(map(float, r)) for r in opt._log["knobs"][n0:]] + [knobs_of(d, prob)]
+        rac.case(json.dumps(prob) + str(new) + str(calls2), sample=dict(knob=i, old=prob["lim"][i], new=new, calls=calls2))
+        badr = next((r for r in rows if not (new[0] <= r[i] <= new[1])), None)
+        if badr is not None:
+            rac.fail(f"limits-changed {n}", f"C10 limits of knob {i} tightened from {prob['lim'][i]} to {new} after one step (value {cur[i]}), then {calls2}: "
+                     f"a later row has the knob at {badr[i]}" + (f" (the call raised {type(raised).__name__}: {raised})" if raised else ""), scr, "JacobianSolver.step")
     rac.section("target-disabled-between-calls", "two runs that differ only in the FUNCTION (row, offset, value) of one target; that target is "
                 "active for a first step() call, then the knobs are put on a common point by hand and the target is disabled (disable() or "
                 "disable_target=): the following call takes the same steps in both runs (plain finite-difference Jacobians: every family, "
